@@ -4,6 +4,7 @@ import (
 	"bytes"
 	"fmt"
 	"math/big"
+	"sync"
 	"unsafe"
 
 	"filippo.io/edwards25519"
@@ -66,7 +67,7 @@ func c11Elems() []field.Element {
 	return out
 }
 
-var c11ElemAlphabet = c11Elems()
+var c11ElemAlphabetOnce = sync.OnceValue(c11Elems)
 
 type elemOp struct {
 	name string
@@ -121,7 +122,7 @@ func evalAliasElem(w *core.Worker, c aliasCase) *core.Fail {
 	}
 	cells := make([]field.Element, ncell)
 	for i := range cells {
-		cells[i] = c11ElemAlphabet[c.Vals[i]]
+		cells[i] = c11ElemAlphabetOnce()[c.Vals[i]]
 	}
 	pa := make([]*field.Element, k)
 	for i := 0; i < k; i++ {
@@ -132,7 +133,7 @@ func evalAliasElem(w *core.Worker, c aliasCase) *core.Fail {
 	dcells := make([]field.Element, k)
 	pd := make([]*field.Element, k)
 	for i := 0; i < k; i++ {
-		dcells[i] = c11ElemAlphabet[c.Vals[c.Part[i]]]
+		dcells[i] = c11ElemAlphabetOnce()[c.Vals[c.Part[i]]]
 		pd[i] = &dcells[i]
 	}
 	rd := op.run(pd, c.Extra)
@@ -147,7 +148,7 @@ func evalAliasElem(w *core.Worker, c aliasCase) *core.Fail {
 		if i == 0 && elemWrites(c.Op, 0) {
 			continue
 		}
-		orig := c11ElemAlphabet[c.Vals[c.Part[i]]]
+		orig := c11ElemAlphabetOnce()[c.Vals[c.Part[i]]]
 		if *pd[i] != orig {
 			return core.Failf("Element.%s modified argument %d (distinct storage)", c.Op, i)
 		}
@@ -160,7 +161,7 @@ func evalAliasElem(w *core.Worker, c aliasCase) *core.Fail {
 }
 
 func evalAliasSwap(c aliasCase) *core.Fail {
-	a, b := c11ElemAlphabet[c.Vals[0]], c11ElemAlphabet[c.Vals[len(c.Vals)-1]]
+	a, b := c11ElemAlphabetOnce()[c.Vals[0]], c11ElemAlphabetOnce()[c.Vals[len(c.Vals)-1]]
 	if c.Part[1] == 0 { // v.Swap(v)
 		v := a
 		v.Swap(&v, c.Extra)
@@ -189,13 +190,13 @@ func c11ScalarVals() []*big.Int {
 	return []*big.Int{big.NewInt(0), big.NewInt(1), big.NewInt(8), new(big.Int).Sub(ref.L, big.NewInt(1)), alpha.GenericScalar, ref.SRed(new(big.Int).Lsh(alpha.GenericScalar, 3))}
 }
 
-var c11ScalarAlphabet = func() []edwards25519.Scalar {
+var c11ScalarAlphabetOnce = sync.OnceValue(func() []edwards25519.Scalar {
 	var o []edwards25519.Scalar
 	for _, v := range c11ScalarVals() {
 		o = append(o, *mkScalar(v))
 	}
 	return o
-}()
+})
 
 type scalarOp struct {
 	name string
@@ -230,7 +231,7 @@ var subC11Scalar = core.NewSub("C11/scalar", func(w *core.Worker, c aliasCase) *
 	}
 	cells := make([]edwards25519.Scalar, ncell)
 	for i := range cells {
-		cells[i] = c11ScalarAlphabet[c.Vals[i]]
+		cells[i] = c11ScalarAlphabetOnce()[c.Vals[i]]
 	}
 	pa := make([]*edwards25519.Scalar, k)
 	for i := range pa {
@@ -240,7 +241,7 @@ var subC11Scalar = core.NewSub("C11/scalar", func(w *core.Worker, c aliasCase) *
 	dcells := make([]edwards25519.Scalar, k)
 	pd := make([]*edwards25519.Scalar, k)
 	for i := range pd {
-		dcells[i] = c11ScalarAlphabet[c.Vals[c.Part[i]]]
+		dcells[i] = c11ScalarAlphabetOnce()[c.Vals[c.Part[i]]]
 		pd[i] = &dcells[i]
 	}
 	rd := op.run(pd)
@@ -255,7 +256,7 @@ var subC11Scalar = core.NewSub("C11/scalar", func(w *core.Worker, c aliasCase) *
 		if i == 0 && writes {
 			continue
 		}
-		orig := c11ScalarAlphabet[c.Vals[c.Part[i]]]
+		orig := c11ScalarAlphabetOnce()[c.Vals[c.Part[i]]]
 		if alpha.ScalarRaw(pd[i]) != alpha.ScalarRaw(&orig) {
 			return core.Failf("Scalar.%s modified argument %d", c.Op, i)
 		}
@@ -274,13 +275,13 @@ func c11PointVals() []ref.Pt {
 	return []ref.Pt{ref.Identity(), ref.Base(), T[1], ref.Add(T[1], ref.Mul(alpha.GenericScalar, ref.Base()))}
 }
 
-var c11PointAlphabet = func() []edwards25519.Point {
+var c11PointAlphabetOnce = sync.OnceValue(func() []edwards25519.Point {
 	var o []edwards25519.Point
 	for i, v := range c11PointVals() {
 		o = append(o, *alpha.MakePoint(v, []int{0, 0, 3, 6}[i]))
 	}
 	return o
-}()
+})
 
 // point ops: Part covers [recv, point args...]; Part2 covers the scalar args.
 type pointOp struct {
@@ -365,7 +366,7 @@ var subC11Point = core.NewSub("C11/point", func(w *core.Worker, c aliasCase) *co
 			cells := make([]edwards25519.Point, k)
 			ptr := make([]*edwards25519.Point, k)
 			for i := 0; i < k; i++ {
-				cells[i] = c11PointAlphabet[vals[part[i]]]
+				cells[i] = c11PointAlphabetOnce()[vals[part[i]]]
 				ptr[i] = &cells[i]
 			}
 			return cells, ptr
@@ -378,7 +379,7 @@ var subC11Point = core.NewSub("C11/point", func(w *core.Worker, c aliasCase) *co
 		}
 		cells := make([]edwards25519.Point, nc)
 		for i := range cells {
-			cells[i] = c11PointAlphabet[vals[i]]
+			cells[i] = c11PointAlphabetOnce()[vals[i]]
 		}
 		ptr := make([]*edwards25519.Point, k)
 		for i := 0; i < k; i++ {
@@ -390,7 +391,7 @@ var subC11Point = core.NewSub("C11/point", func(w *core.Worker, c aliasCase) *co
 		ptr := make([]*edwards25519.Scalar, k)
 		if !aliased {
 			for i := 0; i < k; i++ {
-				s := c11ScalarAlphabet[vals[part[i]]]
+				s := c11ScalarAlphabetOnce()[vals[part[i]]]
 				ptr[i] = &s
 			}
 			return ptr
@@ -398,7 +399,7 @@ var subC11Point = core.NewSub("C11/point", func(w *core.Worker, c aliasCase) *co
 		cells := map[int]*edwards25519.Scalar{}
 		for i := 0; i < k; i++ {
 			if cells[part[i]] == nil {
-				s := c11ScalarAlphabet[vals[part[i]]]
+				s := c11ScalarAlphabetOnce()[vals[part[i]]]
 				cells[part[i]] = &s
 			}
 			ptr[i] = cells[part[i]]
@@ -429,7 +430,7 @@ var subC11Point = core.NewSub("C11/point", func(w *core.Worker, c aliasCase) *co
 		if i == 0 && writes {
 			continue
 		}
-		orig := c11PointAlphabet[c.Vals[c.Part[i]]]
+		orig := c11PointAlphabetOnce()[c.Vals[c.Part[i]]]
 		if alpha.PointRaw(pd[i]) != alpha.PointRaw(&orig) {
 			return core.Failf("Point.%s modified point argument %d", c.Op, i)
 		}
@@ -438,7 +439,7 @@ var subC11Point = core.NewSub("C11/point", func(w *core.Worker, c aliasCase) *co
 		}
 	}
 	for i := 0; i < spec.ks; i++ {
-		orig := c11ScalarAlphabet[c.Vals2[c.Part2[i]]]
+		orig := c11ScalarAlphabetOnce()[c.Vals2[c.Part2[i]]]
 		if alpha.ScalarRaw(sa[i]) != alpha.ScalarRaw(&orig) || alpha.ScalarRaw(sd[i]) != alpha.ScalarRaw(&orig) {
 			return core.Failf("Point.%s modified scalar argument %d", c.Op, i)
 		}
@@ -497,7 +498,7 @@ func runC11(ctx *core.Ctx) {
 				extras = []int{0, 1}
 			}
 			for _, x := range extras {
-				for _, v := range tuples(ncells(part), len(c11ElemAlphabet), 0) {
+				for _, v := range tuples(ncells(part), len(c11ElemAlphabetOnce()), 0) {
 					ec = append(ec, aliasCase{Type: "Element", Op: op.name, Part: part, Vals: v, Extra: x})
 				}
 			}
@@ -506,7 +507,7 @@ func runC11(ctx *core.Ctx) {
 	for _, part := range partitions(2) {
 		programs++
 		for cond := 0; cond < 2; cond++ {
-			for _, v := range tuples(2, len(c11ElemAlphabet), 0) {
+			for _, v := range tuples(2, len(c11ElemAlphabetOnce()), 0) {
 				ec = append(ec, aliasCase{Type: "Element", Op: "Swap", Part: part, Vals: v, Extra: cond})
 			}
 		}
@@ -516,7 +517,7 @@ func runC11(ctx *core.Ctx) {
 	for _, op := range scalarOps {
 		for _, part := range partitions(op.k) {
 			programs++
-			for _, v := range tuples(ncells(part), len(c11ScalarAlphabet), 0) {
+			for _, v := range tuples(ncells(part), len(c11ScalarAlphabetOnce()), 0) {
 				sc = append(sc, aliasCase{Type: "Scalar", Op: op.name, Part: part, Vals: v})
 			}
 		}
@@ -544,8 +545,8 @@ func runC11(ctx *core.Ctx) {
 				if o.n >= 2 {
 					plimit, slimit = tierN(ctx, 12, 64), tierN(ctx, 4, 12)
 				}
-				for _, v := range tuples(ncells(part), len(c11PointAlphabet), plimit) {
-					for _, sv := range tuples(ncells(sp), len(c11ScalarAlphabet), func() int {
+				for _, v := range tuples(ncells(part), len(c11PointAlphabetOnce()), plimit) {
+					for _, sv := range tuples(ncells(sp), len(c11ScalarAlphabetOnce()), func() int {
 						if slimit > 0 {
 							return slimit
 						}
